@@ -452,5 +452,6 @@ package security
 //@   assert after call Authenticator).setupStreamEncryption #1 enc_decided: [C03] callres == nil ==> (negotiation.ServerConfig.Encryption == "REQUIRED" ==> sealingOn(a.stream)) && negotiation.Encryption == sealingOn(a.stream) && (sealingOn(a.stream) || a.stream.gcm == nil)
 //@   nocall [C04] digests_frozen_only_at_key_installation: Stream).FinalizeDigests
 //@   assert after call Authenticator).handleServerAuthentication #1 auth_decided: [C03] callres == nil && negotiation.ServerConfig.Authentication == "REQUIRED" ==> negotiation.Authentication && authOKCount == old(authOKCount) + 1
+//@   ensures negotiation_on_success: err == nil ==> result != nil
 //@   ensures full_reports_real: [C03] err == nil && !result.SessionResumed ==> result.Encryption == (a.stream.gcm != nil)
 //@   ensures resumed_is_keyed: [C06] err == nil && result.SessionResumed ==> a.stream.gcm != nil && result.Encryption
